@@ -463,7 +463,7 @@ _mk_demes_sfs('demes_sfs_ancient', 'Demes.SFS', [0, 120],
 _mk_demes_sfs('demes_sfs_present', 'Demes.SFS', None,
               lambda g, a: _D().Demes.SFS(g, a['sampled_demes'], a['sample_sizes'], 8))
 _mk_demes_sfs('from_demes_ancient', 'Spectrum.from_demes', [0, 120],
-              lambda g, a: _D().Spectrum.from_demes(g, a['sampled_demes'], a['sample_sizes'], pts=[8, 10, 12], sample_times=a['sample_times']))
+              lambda g, a: _D().Spectrum.from_demes(g, a['sampled_demes'], a['sample_sizes'], pts=[5, 6, 8], sample_times=a['sample_times']))
 
 
 # ---- integrators -------------------------------------------------------------------------------------
@@ -688,6 +688,328 @@ _mk_fim('fim_A_named', 'A', transient=False)
 _mk_fim('fim_B_named', 'B', transient=False)
 
 
+# ======================================================================================================================
+# alphabet extension (quantifier audit): the remaining public functions of dadi.Spectrum / Numerics / Inference / Misc /
+# PhiManip / Integration / Godambe / LowPass / DFE.PDFs that take array or list arguments or touch module-level state
+# ======================================================================================================================
+def _np():
+    import numpy
+    return numpy
+
+
+def _mk_fs(name, site, shape, fn, **kw):
+    @reg(name, site)
+    def mk(lay, xl):
+        fs = fs_fix(shape, 41, lay=lay, **kw)
+        return {'fs': fs}, (lambda a: fn(a['fs']))
+
+
+def _seeded(k, f):
+    def g(*a):
+        import numpy as np
+        np.random.seed(k)       # random by contract: the call is (seed; call)
+        return f(*a)
+    return g
+
+
+_mk_fs('zengs_E_1d', 'Spectrum.Zengs_E', (9,), lambda fs: fs.Zengs_E())
+_mk_fs('theta_L_1d', 'Spectrum.theta_L', (9,), lambda fs: fs.theta_L())
+_mk_fs('combine_two_pops_3d', 'Spectrum.combine_two_pops', (4, 3, 3), lambda fs: fs.combine_two_pops([1, 3]))
+_mk_fs('scramble_2d', 'Spectrum.scramble_pop_ids', (4, 4), lambda fs: fs.scramble_pop_ids())
+_mk_fs('sample_2d', 'Spectrum.sample', (5, 4), _seeded(3, lambda fs: fs.sample()))
+_mk_fs('fixed_size_sample_1d', 'Spectrum.fixed_size_sample', (9,), _seeded(4, lambda fs: fs.fixed_size_sample(25)))
+_mk_fs('apply_anc_state_misid_2d', 'Numerics.apply_anc_state_misid', (5, 4), lambda fs: _N().apply_anc_state_misid(fs, 0.07))
+_mk_fs('misc_combine_pops_3d', 'Misc.combine_pops', (4, 3, 3), lambda fs: __import__('dadi').Misc.combine_pops(fs))
+_mk_fs('ll_multinom_per_bin_2d', 'Inference.ll_multinom_per_bin', (5, 4),
+       lambda fs: __import__('dadi').Inference.ll_multinom_per_bin(fs, fs_fix((5, 4), 37, interior_mask=True)))
+_mk_fs('optimally_scaled_sfs_2d', 'Inference.optimally_scaled_sfs', (5, 4),
+       lambda fs: __import__('dadi').Inference.optimally_scaled_sfs(fs, fs_fix((5, 4), 37, interior_mask=True)))
+_mk_fs('linear_residual_2d', 'Inference.linear_Poisson_residual', (5, 4),
+       lambda fs: __import__('dadi').Inference.linear_Poisson_residual(fs, fs_fix((5, 4), 37, interior_mask=True)))
+
+
+@reg('fs_add_2d', 'Spectrum.__add__')
+def _fsadd(lay, xl):
+    a, b = fs_fix((5, 4), 41, lay=lay), fs_fix((5, 4), 43, lay=lay, interior_mask=True)
+    return {'a': a, 'b': b}, (lambda x: x['a'] + x['b'])
+
+
+@reg('to_file_2d', 'Spectrum.to_file')
+def _tofile(lay, xl):
+    import tempfile
+
+    def run(a):
+        with tempfile.NamedTemporaryFile('r', suffix='.fs', dir='/var/tmp') as f:
+            a['fs'].to_file(f.name, comment_lines=a['comment_lines'])
+            return open(f.name).read()
+    return {'fs': fs_fix((5, 4), 41, lay=lay, pop_ids=['A', 'B']), 'comment_lines': ['first', 'second']}, run
+
+
+@reg('intersect_masks_2d', 'Numerics.intersect_masks')
+def _imask(lay, xl):
+    np = _np()
+    rs = np.random.RandomState(5)
+    m1, m2 = rs.uniform(size=(5, 4)) < 0.3, rs.uniform(size=(5, 4)) < 0.3
+    return {'m1': layn(m1, lay), 'm2': layn(m2, lay)}, (lambda a: [np.asarray(x) for x in _N().intersect_masks(a['m1'], a['m2'])])
+
+
+@reg('reverse_array_3d', 'Numerics.reverse_array')
+def _rev(lay, xl):
+    return {'arr': layn(phi_fix(3, 4), lay)}, (lambda a: _N().reverse_array(a['arr']))
+
+
+@reg('trapz_2d', 'Numerics.trapz')
+def _trapz(lay, xl):
+    return {'yy': layn(phi_fix(2, 8), lay), 'xx': lay1(grid('A', 8), xl)}, (lambda a: _N().trapz(a['yy'], a['xx'], axis=0))
+
+
+@reg('end_point_first_derivs', 'Numerics.end_point_first_derivs')
+def _epfd(lay, xl):
+    return {'xx': lay1(grid('A', 8), xl)}, (lambda a: _N().end_point_first_derivs(a['xx']))
+
+
+@reg('quadratic_extrap', 'Numerics.quadratic_extrap')
+def _qextrap(lay, xl):
+    ys = [fs_fix((5,), 50 + k) for k in range(3)]
+    return {'ys': ys, 'xs': [0.1, 0.07, 0.05]}, (lambda a: _N().quadratic_extrap(a['ys'], a['xs']))
+
+
+@reg('extrap_func_A', 'Numerics.make_extrap_func')
+def _exf(lay, xl):
+    def run(a):
+        CURRENT['model'] = 'A'
+        return _N().make_extrap_func(model_A)(a['params'], a['ns'], a['pts'])
+    return {'params': [1.8, 0.12], 'ns': [6], 'pts': [8, 10, 12]}, run
+
+
+# ---- sampling from phi: the remaining code paths (direct integration, admixture proportions, ascertainment) and
+#      argument container types (tuple / list / array for ns and xxs)
+def _mk_from_phi_opt(name, d, n, ns, **kw):
+    @reg(name, 'Spectrum.from_phi')
+    def mk(lay, xl):
+        import dadi
+        xx = lay1(grid('A', n), xl)
+        phi = layn(phi_fix(d, n), lay)
+        args = {'phi': phi, 'xx': xx, 'ns': list(ns)}
+        if 'admix_props' in kw:
+            args['admix_props'] = [list(r) for r in kw['admix_props']]
+        rest = {k: v for k, v in kw.items() if k != 'admix_props'}
+        return args, (lambda a: dadi.Spectrum.from_phi(a['phi'], a['ns'], (a['xx'],) * d, **dict(rest, **({'admix_props': a['admix_props']} if 'admix_props' in a else {}))))
+
+
+_mk_from_phi_opt('from_phi_1d_direct', 1, 10, (6,), force_direct=True)
+_mk_from_phi_opt('from_phi_2d_direct', 2, 8, (4, 3), force_direct=True)
+_mk_from_phi_opt('from_phi_3d_direct', 3, 6, (3, 2, 2), force_direct=True)
+_mk_from_phi_opt('from_phi_2d_admix_props', 2, 8, (4, 3), admix_props=((0.8, 0.2), (0.0, 1.0)))
+_mk_from_phi_opt('from_phi_2d_het_xx', 2, 8, (4, 3), het_ascertained='xx')
+_mk_from_phi_inb('from_phi_inb_3d_422', 3, 7, (4, 2, 2), (0.3, 0.3, 0.3))
+
+
+@reg('from_phi_2d_43_A_containers', 'Spectrum.from_phi')
+def _fpc(lay, xl):
+    import dadi
+    np = _np()
+    xx = grid('A', 8)
+    return ({'phi': phi_fix(2, 8), 'ns': np.array([4, 3]), 'xxs': [xx, xx.copy()]},
+            (lambda a: dadi.Spectrum.from_phi(a['phi'], a['ns'], a['xxs'])))
+
+
+@reg('project_2d_64_43_nsarray', 'Spectrum.project')
+def _pja(lay, xl):
+    np = _np()
+    return {'fs': fs_fix((7, 5), 11), 'ns': np.array([4, 3])}, (lambda a: a['fs'].project(a['ns']))
+
+
+# ---- Misc ------------------------------------------------------------------------------------------------------------
+@reg('ms_command', 'Misc.ms_command')
+def _msc(lay, xl):
+    import dadi
+    return {'ns': [4, 6], 'seeds': [1, 2, 3]}, (lambda a: dadi.Misc.ms_command(1.5, a['ns'], '-n 1 0.5 -ej 0.1 2 1', 10, seeds=a['seeds']))
+
+
+@reg('count_data_dict', 'Misc.count_data_dict')
+def _cdd(lay, xl):
+    import dadi
+    dd = data_dict_fix(2)
+    return {'pop_ids': ['A', 'B']}, (lambda a: {repr(k): v for k, v in dadi.Misc.count_data_dict(dd, a['pop_ids']).items()})
+
+
+def _mk_Q(name, site, fn):
+    @reg(name, site)
+    def mk(lay, xl):
+        np = _np()
+        Q = np.random.RandomState(9).uniform(0.1, 1.0, size=(4, 4))
+        return {'Q': layn(Q, lay), 'pi': np.array([0.1, 0.2, 0.3, 0.4])}, (lambda a: fn(__import__('dadi').Misc, a))
+
+
+_mk_Q('zero_diag', 'Misc.zero_diag', lambda M, a: M.zero_diag(a['Q']))
+_mk_Q('total_instantaneous_rate', 'Misc.total_instantaneous_rate', lambda M, a: float(M.total_instantaneous_rate(a['Q'], a['pi'])))
+
+
+# ---- PhiManip: the remaining constructors, splits and (documented in-place) pulse functions ---------------------------
+_mk_phim('phi_1D_snm', 'phi_1D_snm', 0, 10, lambda PM, a: PM.phi_1D_snm(a['xx'], nu=1.3))
+_mk_phim('phi_1D_X', 'phi_1D_X', 0, 10, lambda PM, a: PM.phi_1D_X(a['xx'], nu=1.3, gamma=-0.7, h=0.3, beta=1.5, alpha=2.0))
+_mk_phim('phi_2D_to_3D_split_2', 'phi_2D_to_3D_split_2', 2, 6, lambda PM, a: PM.phi_2D_to_3D_split_2(a['xx'], a['phi']))
+_mk_phim('phi_2D_admix_2_into_1', 'phi_2D_admix_2_into_1', 2, 8, lambda PM, a: PM.phi_2D_admix_2_into_1(a['phi'], 0.2, a['xx'], a['xx']))
+_mk_phim('phi_3D_admix_1_and_3_into_2', 'phi_3D_admix_1_and_3_into_2', 3, 6, lambda PM, a: PM.phi_3D_admix_1_and_3_into_2(a['phi'], 0.2, 0.1, a['xx'], a['xx'], a['xx']))
+_mk_phim('phi_3D_admix_2_and_3_into_1', 'phi_3D_admix_2_and_3_into_1', 3, 6, lambda PM, a: PM.phi_3D_admix_2_and_3_into_1(a['phi'], 0.2, 0.1, a['xx'], a['xx'], a['xx']))
+for _k in (1, 2, 3, 4):
+    _mk_phim('phi_4D_admix_into_%d' % _k, 'phi_4D_admix_into_%d' % _k, 4, 5,
+             (lambda k: lambda PM, a: getattr(PM, 'phi_4D_admix_into_%d' % k)(a['phi'], 0.1, 0.2, 0.15, a['xx'], a['xx'], a['xx'], a['xx']))(_k))
+for _k in (1, 2, 3, 4, 5):
+    _mk_phim('phi_5D_admix_into_%d' % _k, 'phi_5D_admix_into_%d' % _k, 5, 4,
+             (lambda k: lambda PM, a: getattr(PM, 'phi_5D_admix_into_%d' % k)(a['phi'], 0.1, 0.2, 0.15, 0.05, a['xx'], a['xx'], a['xx'], a['xx'], a['xx']))(_k))
+
+
+@reg('filter_pops_3d', 'PhiManip.filter_pops')
+def _fp3(lay, xl):
+    import dadi
+    return ({'phi': layn(phi_fix(3, 6), lay), 'xx': lay1(grid('A', 6), xl), 'tokeep': [1, 3]},
+            (lambda a: dadi.PhiManip.filter_pops(a['phi'], a['xx'], a['tokeep'])))
+
+
+# ---- Integration.one_pop_X ---------------------------------------------------------------------------------------------
+def _mk_int_X(td):
+    @reg('one_pop_X_td' if td else 'one_pop_X_c', 'Integration.one_pop_X', integrator=True)
+    def mk(lay, xl):
+        import dadi
+        xx = lay1(grid('A', 10), xl)
+        phi = layn(phi_fix(1, 10), lay)
+        nu = (lambda t: 1.7 + 2.0 * t) if td else 1.7
+        return {'phi': phi, 'xx': xx}, (lambda a: dadi.Integration.one_pop_X(a['phi'], a['xx'], 0.01, nu=nu, gamma=-0.8, h=0.3, beta=1.5, alpha=2.0, theta0=1.3))
+
+
+_mk_int_X(False)      # (the time-dependent X-chromosome path raises NotImplementedError by design: not in the alphabet)
+
+
+# ---- optimisers: list arguments (start point, bounds with None, fixed parameters) --------------------------------------
+def _mk_opt(name, site, call):
+    @reg(name, site)
+    def mk(lay, xl):
+        import io
+        data = god_data()
+
+        def run(a):
+            CURRENT['model'] = 'A'
+            np = _np()
+            r = call(__import__('dadi').Inference, a, io.StringIO())
+            return np.asarray(r)
+        return {'p0': [1.8, 0.12], 'data': data, 'pts': [10], 'lower_bound': [0.1, None], 'upper_bound': [None, 3.0], 'fixed_params': [None, 0.12]}, run
+
+
+def _okw(a, out, **kw):
+    d = dict(lower_bound=a['lower_bound'], upper_bound=a['upper_bound'], fixed_params=a['fixed_params'], verbose=0, maxiter=2)
+    d.update(kw)
+    return d
+
+
+_mk_opt('optimize_log_A', 'Inference.optimize_log', lambda I, a, out: I.optimize_log(a['p0'], a['data'], model_A, a['pts'], **_okw(a, out)))
+_mk_opt('optimize_A', 'Inference.optimize', lambda I, a, out: I.optimize(a['p0'], a['data'], model_A, a['pts'], **_okw(a, out)))
+_mk_opt('optimize_log_fmin_A', 'Inference.optimize_log_fmin', lambda I, a, out: I.optimize_log_fmin(a['p0'], a['data'], model_A, a['pts'], **_okw(a, out)))
+_mk_opt('optimize_log_lbfgsb_A', 'Inference.optimize_log_lbfgsb', lambda I, a, out: I.optimize_log_lbfgsb(a['p0'], a['data'], model_A, a['pts'], **_okw(a, out)))
+_mk_opt('optimize_lbfgsb_A', 'Inference.optimize_lbfgsb', lambda I, a, out: I.optimize_lbfgsb(a['p0'], a['data'], model_A, a['pts'], **_okw(a, out)))
+_mk_opt('opt_nlopt_A', 'Inference.opt', lambda I, a, out: I.opt(a['p0'], a['data'], model_A, a['pts'], lower_bound=[0.1, 0.01], upper_bound=[10.0, 3.0],
+                                                                  fixed_params=a['fixed_params'], maxeval=4)[0])
+
+
+# ---- Godambe: likelihood-ratio adjustment (internal closure over a NAMED model function), derivative helpers -------------
+def _mk_lrt(name, model):
+    @reg(name, 'Godambe.LRT_adjust')
+    def mk(lay, xl):
+        import dadi
+        np = _np()
+        data = god_data()
+
+        def run(a):
+            CURRENT['model'] = model
+            CURRENT['fn'] = 't%d' % CURRENT['k']      # LRT_adjust differentiates an internal closure: a new function object per call
+            boots = [dadi.Spectrum(np.array([0.0, 36.0 + 2 * k, 16.0 - k, 7.0 + (k % 2), 5.0, 4.0 - (k % 3), 0.0])) for k in range(4)]
+            return float(dadi.Godambe.LRT_adjust(_PERSISTENT[model], a['pts'], boots, a['p0'], a['data'], a['nested_indices'], multinom=False, eps=0.05))
+        return {'p0': [1.8, 0.12, 25.0], 'pts': [10], 'data': data, 'nested_indices': [1]}, run
+
+
+_mk_lrt('lrt_A', 'A')
+_mk_lrt('lrt_B', 'B')
+
+
+@reg('get_hess_quadratic', 'Godambe.get_hess')
+def _gh(lay, xl):
+    import dadi
+    f = lambda p, c: -(c[0] * (p[0] - 1.0) ** 2 + c[1] * (p[1] + 0.5) ** 2 + 0.3 * p[0] * p[1])
+    return {'p0': [1.2, -0.4], 'c': [2.0, 3.0]}, (lambda a: dadi.Godambe.get_hess(f, a['p0'], 0.01, args=[a['c']]))
+
+
+@reg('get_grad_quadratic', 'Godambe.get_grad')
+def _gg(lay, xl):
+    import dadi
+    f = lambda p, c: -(c[0] * (p[0] - 1.0) ** 2 + c[1] * (p[1] + 0.5) ** 2 + 0.3 * p[0] * p[1])
+    return {'p0': [1.2, -0.4], 'c': [2.0, 3.0]}, (lambda a: dadi.Godambe.get_grad(f, a['p0'], 0.01, args=[a['c']]))
+
+
+@reg('sum_chi2_ppf', 'Godambe.sum_chi2_ppf')
+def _scp(lay, xl):
+    import dadi
+    np = _np()
+    return {'x': layn(np.array([0.5, 1.5, 3.0, 6.0]), lay), 'weights': [0.5, 0.5]}, (lambda a: dadi.Godambe.sum_chi2_ppf(a['x'], a['weights']))
+
+
+# ---- LowPass: the remaining deterministic helpers (list arguments) and the seeded subsampler ------------------------------
+def _mk_lp(name, site, args, fn):
+    @reg(name, 'LowPass.' + site)
+    def mk(lay, xl):
+        import copy
+        return copy.deepcopy(args), (lambda a: fn(_LP(), a))
+
+
+_mk_lp('lowpass_part_inbreeding_prob', 'part_inbreeding_probability', {'parts': [[0, 0, 2], [0, 1, 1]]}, lambda LP, a: LP.part_inbreeding_probability(a['parts'], 0.25))
+_mk_lp('lowpass_projection_inbreeding', 'projection_inbreeding', {'partition': [0, 1, 2]}, lambda LP, a: LP.projection_inbreeding(a['partition'], 4))
+_mk_lp('lowpass_split_list', 'split_list_by_lengths', {'input_list': [1, 2, 3, 4, 5, 6], 'lengths_list': [2, 1, 3]}, lambda LP, a: LP.split_list_by_lengths(a['input_list'], a['lengths_list']))
+_mk_lp('lowpass_flatten_nested', 'flatten_nested_list', {'nested_list': [[1, 2], [3, 4]]}, lambda LP, a: LP.flatten_nested_list(a['nested_list'], '*'))
+
+
+@reg('lowpass_no_call_6', 'LowPass.probability_of_no_call_1D_GATK_multisample')
+def _lnc(lay, xl):
+    np = _np()
+    cov = np.array([[0, 1, 2, 3, 4], [0.05, 0.25, 0.3, 0.25, 0.15]])
+    return {'cov': cov}, (lambda a: _LP().probability_of_no_call_1D_GATK_multisample(a['cov'], 6, 0))
+
+
+@reg('lowpass_subsample_genotypes', 'LowPass.subsample_genotypes_1D')
+def _lsg(lay, xl):
+    np = _np()
+    g = np.array([[0, 1, 2, 99], [1, 1, 0, 2], [2, 99, 99, 0], [0, 0, 1, 1]])
+    def run(a):
+        LP = _LP()
+        # random by contract; LowPass draws from its module-level generator `rng` (seeded from the OS at import):
+        # the call is (LowPass.rng = default_rng(8); subsample_genotypes_1D(...))
+        LP.rng = np.random.default_rng(8)
+        return LP.subsample_genotypes_1D(a['genotype_calls'], 4)
+    return {'genotype_calls': g}, run
+
+
+# ---- DFE.PDFs ------------------------------------------------------------------------------------------------------------
+def _mk_pdf(name, fname, params, two=False):
+    @reg(name, 'DFE.PDFs.' + fname)
+    def mk(lay, xl):
+        import dadi.DFE.PDFs as P
+        np = _np()
+        xx = layn(np.array([0.05, 0.3, 0.9, 2.0, 5.5, 12.0]), lay)
+        args = {'xx': xx, 'params': list(params)}
+        if two:
+            args['yy'] = lay1(np.array([0.1, 0.4, 1.1, 3.0, 7.0, 9.0]), xl)
+            return args, (lambda a: getattr(P, fname)(a['xx'], a['yy'], a['params']))
+        return args, (lambda a: getattr(P, fname)(a['xx'], a['params']))
+
+
+_mk_pdf('pdf_gamma', 'gamma', (0.4, 3.0))
+_mk_pdf('pdf_lognormal', 'lognormal', (0.5, 1.2))
+_mk_pdf('pdf_exponential', 'exponential', (2.5,))
+_mk_pdf('pdf_beta', 'beta', (0.8, 2.0))
+_mk_pdf('pdf_biv_lognormal', 'biv_lognormal', (0.5, 1.2, 0.6), two=True)
+_mk_pdf('pdf_biv_ind_gamma', 'biv_ind_gamma', (0.4, 3.0, 0.7, 2.0), two=True)
+_mk_pdf('pdf_biv_lognormal_py', 'biv_lognormal_py', (0.5, 1.2, 0.6), two=True)
+
+
 # ---- demes export ----------------------------------------------------------------------------------------
 DEME_MAPS = {'none': None,
              'X': {'anc': ['d1_1'], 'left': ['d2_1', 'd3_1'], 'right': ['d2_2', 'd3_2']},
@@ -727,7 +1049,7 @@ _mk_demes('demes_output_again_X', 'X', True)
 _mk_demes('demes_output_again_Y', 'Y', True)
 _mk_demes('demes_output_again_none', 'none', True)
 # any other call that appends to / resets the event log invalidates "the log is this model's"
-LOG_TOUCHING_SITES = ('Integration.', 'PhiManip.', 'Godambe.', 'Inference._object_func', 'Inference.optimize_grid',
+LOG_TOUCHING_SITES = ('Integration.', 'PhiManip.', 'Godambe.', 'Inference._object_func', 'Inference.optimize', 'Inference.opt', 'Numerics.make_extrap_func',
                       'LowPass.make_low_pass_func', 'Demes.SFS', 'Spectrum.from_demes')
 
 
